@@ -238,6 +238,11 @@ Theorem C17_set_absorbs : forall kd st o n v h, whole_ok n = true ->
   snd (run kd (after kd (after kd st o) (OSet n v)) h) = snd (run kd (after kd st (OSet n v)) h).
 Proof. exact set_absorbs. Qed.
 
+Theorem C17_unset_absorbs : forall kd st o n h, whole_ok n = true ->
+  touches_only (canon n) (classify kd o) = true ->
+  snd (run kd (after kd (after kd st o) (OUnset n)) h) = snd (run kd (after kd st (OUnset n)) h).
+Proof. exact unset_absorbs. Qed.
+
 Example C17_set_absorbs_nonvacuous :
   touches_only (canon [x58; x2d; x41]) (classify KReq (OSet [x78; x2d; x61; x3a; x6b] (VStr [x31]))) = true /\
   touches_only (canon [x58; x2d; x41]) (classify KResp (OAdd [x78; x2d; x41] (VStr [x31]))) = true /\
@@ -280,3 +285,4 @@ Print Assumptions C17_sets_commute.
 Print Assumptions C17_unset_idempotent.
 Print Assumptions C17_unset_set_is_set.
 Print Assumptions C17_set_absorbs.
+Print Assumptions C17_unset_absorbs.
